@@ -156,7 +156,7 @@ def make_stream(rng, small=False, marks=None):
             parts.append(streams.pseudo_frame(rng))
             foreign = True
         elif k < 0.74:
-            parts.append(streams.nmea(rng, 30))
+            parts.append(streams.nmea(rng, 30, sloppy=True))
             foreign = True
         elif k < 0.82:
             parts.append(streams.ubx(rng, 40, dense=True))
